@@ -90,7 +90,10 @@ func (nfs *Nfs) makeRootDir() {
 	// becomes visible atomically with its directory entries.
 	ip.InitInode(common.ROOTINUM, nfstypes.NF3DIR)
 	ip.WriteInode(op.Atxn)
-	dir.MkRootDir(ip, op)
+	if !dir.MkRootDir(ip, op) {
+		// no block for "." and "..": the disk has no data region
+		panic("makeRootDir: no room for the root directory")
+	}
 	ok := op.Commit()
 	if !ok {
 		panic("makeRootDir")
